@@ -41,6 +41,12 @@ def overhang_family():
                   "M%s,%s L%s,%s L%s,%s L%s,%s Z" % (-o, -o, 64 + o, -o, 64 + o, 64 + o, -o, 64 + o)):
             jobs.append(('<svg xmlns="http://www.w3.org/2000/svg" viewBox="0 0 64 64"><defs/><path d="%s" fill="red"/>'
                          '<path d="M1,1 L9,1 L9,9 Z"/></svg>' % d, (0, 0, 64, 64)))
+    # the only user of a gradient lies outside the viewBox: clipped away, the gradient must not stay behind
+    for vb in ((0, 0, 8, 8), (0, 0, 16, 6)):
+        jobs.append(('<svg xmlns="http://www.w3.org/2000/svg" viewBox="0 0 16 16"><defs><linearGradient id="a" x1="0" y1="0" '
+                     'x2="1" y2="0"><stop offset="0" stop-color="red"/><stop offset="1" stop-color="blue"/></linearGradient>'
+                     '<linearGradient id="b" x1="0" y1="0" x2="1" y2="0"><stop offset="0" stop-color="lime"/></linearGradient>'
+                     '</defs><path d="M1,1 L5,1 L5,5 Z" fill="url(#b)"/><path fill="url(#a)" d="M10,10 L14,10 L14,14 Z"/></svg>', vb))
     # a picosvg path may still carry a clip-rule (it means nothing there): cutting it at the viewBox goes
     # by its FILL rule - visible on same-direction nested contours straddling the border
     for rule in ("evenodd", "nonzero"):
